@@ -45,6 +45,8 @@ struct P {
     b_sub: Lm,
     b_r: Lm,
     r2: Option<Lm>,
+    /// sibling reader under the SAME subscriber (one DATA => two changes in one processing pass)
+    r3: Option<Lm>,
     rbad: Option<Lm>,
     deadline: bool,
     limit: bool,
@@ -92,6 +94,7 @@ fn gen_params(rng: &mut Rng, thorough: bool) -> P {
         b_sub: gen_lm(rng, &R_KINDS, None),
         b_r: gen_lm(rng, &R_KINDS, focus),
         r2: if rng.chance(0.4) { Some(gen_lm(rng, &R_KINDS, None)) } else { None },
+        r3: None,
         rbad: if rng.chance(0.5) { Some(gen_lm(rng, &R_KINDS, None)) } else { None },
         deadline: false,
         limit: false,
@@ -104,6 +107,8 @@ fn gen_params(rng: &mut Rng, thorough: bool) -> P {
     };
     p.deadline = feature == 0 || feature == 1;
     p.limit = feature == 2 || feature == 3;
+    // drawn last so that the earlier parameters of a case do not depend on it
+    p.r3 = if rng.chance(0.4) { Some(gen_lm(rng, &R_KINDS, None)) } else { None };
     p
 }
 
@@ -124,6 +129,7 @@ impl P {
             .set("subscriber_listener_mask", lm_json(&self.b_sub))
             .set("reader_listener_mask", lm_json(&self.b_r))
             .set("second_reader_under_listenerless_subscriber", match &self.r2 { None => Json::s("absent"), Some(l) => lm_json(l) })
+            .set("sibling_reader_under_the_same_subscriber", match &self.r3 { None => Json::s("absent"), Some(l) => lm_json(l) })
             .set("incompatible_reader(TRANSIENT_LOCAL)_under_subscriber", match &self.rbad { None => Json::s("absent"), Some(l) => lm_json(l) })
             .set("deadline_600ms", self.deadline)
             .set("reader_resource_limit_2_samples", self.limit)
@@ -146,9 +152,10 @@ struct Out {
     h_sub: [u8; 16],
     h_r2: Option<[u8; 16]>,
     h_sub2: Option<[u8; 16]>,
+    h_r3: Option<[u8; 16]>,
     h_rbad: Option<[u8; 16]>,
-    /// (t0, t1, arrived at R, arrived at R2)
-    writes: Vec<(i64, i64, bool, bool)>,
+    /// (t0, t1, arrived at R, arrived at R2, arrived at R3)
+    writes: Vec<(i64, i64, bool, bool, bool)>,
     n_rejected: i32,
     pub_matched_total: i32,
     sub_matched_total_r: i32,
@@ -237,10 +244,20 @@ async fn scenario(w: World, p: P) -> Out {
         dr2 = Some(r);
         _sb2 = Some(sb2);
     }
-    let n_readers = 1 + dr2.is_some() as i32;
+    let mut dr3 = None;
+    if let Some(l3) = &p.r3 {
+        let rq3 = DataReaderQos { reliability: reliable(1000), ..Default::default() };
+        let r = api!(sb.create_datareader::<Msg>(&topic_b, QosKind::Specific(rq3), opt_rec(l3, &log, &sh, L_ENTITY, 1), mask_of(l3)), "create_datareader");
+        out.h_r3 = Some(r.get_instance_handle().into());
+        dr3 = Some(r);
+    }
+    let n_readers = 1 + dr2.is_some() as i32 + dr3.is_some() as i32;
     out.matched = wait_matched(&sim, &dw, n_readers, 20 * SEC).await && wait_reader_matched(&sim, &dr, 1, 20 * SEC).await;
     if let Some(r2) = &dr2 {
         out.matched &= wait_reader_matched(&sim, r2, 1, 20 * SEC).await;
+    }
+    if let Some(r3) = &dr3 {
+        out.matched &= wait_reader_matched(&sim, r3, 1, 20 * SEC).await;
     }
     if !out.matched {
         return out;
@@ -302,7 +319,14 @@ async fn scenario(w: World, p: P) -> Out {
             },
             None => false,
         };
-        out.writes.push((t0, t1, at_r, at_r2));
+        let at_r3 = match &dr3 {
+            Some(r3) => match sim.timeout(10 * SEC, r3.read(i32::MAX, ANY_SAMPLE_STATE, ANY_VIEW_STATE, ANY_INSTANCE_STATE)).await {
+                Ok(Ok(v)) => v.iter().any(|s| s.data.as_ref().map(|m| m.seq) == Some(k)),
+                _ => false,
+            },
+            None => false,
+        };
+        out.writes.push((t0, t1, at_r, at_r2, at_r3));
         if p.take_after[k as usize] {
             if let Ok(Ok(v)) = sim.timeout(10 * SEC, dr.take(i32::MAX, ANY_SAMPLE_STATE, ANY_VIEW_STATE, ANY_INSTANCE_STATE)).await {
                 held = held.saturating_sub(v.len() as u32);
@@ -470,13 +494,16 @@ fn evaluate(rep: &mut Report, p: &P, o: &Out, replay: &Json, poll_hash: u64, cas
         if let (Some(l2), Some(h2), Some(hs2)) = (&p.r2, o.h_r2, o.h_sub2) {
             v.push((h2, hs2, [l2, &none, &p.b_dp], 3usize, "the second reader"));
         }
+        if let (Some(l3), Some(h3)) = (&p.r3, o.h_r3) {
+            v.push((h3, o.h_sub, [l3, &p.b_sub, &p.b_dp], 4usize, "the sibling reader (same subscriber)"));
+        }
         v
     };
     for (wi, wr) in o.writes.iter().enumerate() {
         let t_from = wr.0;
         let t_to = o.writes.get(wi + 1).map(|n| n.0).unwrap_or(i64::MAX);
         for (h, hs, chain, idx, name) in &readers {
-            let arrived = if *idx == 2 { wr.2 } else { wr.3 };
+            let arrived = match *idx { 2 => wr.2, 3 => wr.3, _ => wr.4 };
             if !arrived {
                 continue;
             }
@@ -486,16 +513,36 @@ fn evaluate(rep: &mut Report, p: &P, o: &Out, replay: &Json, poll_hash: u64, cas
             } else {
                 ("DataAvailable", expected_level(chain, StatusKind::DataAvailable))
             };
+            // readers of the same subscriber that received this write: DATA_ON_READERS is a status
+            // of the subscriber, so one write may legitimately be signalled once per receiving
+            // reader or once for all of them (1..=k callbacks count as the one expected occurrence)
+            let k_same_sub = readers
+                .iter()
+                .filter(|r| r.1 == *hs && match r.3 { 2 => wr.2, 3 => wr.3, _ => wr.4 })
+                .count();
             let mut got: Vec<u8> = Vec::new();
             let mut got_kinds: Vec<&str> = Vec::new();
+            let mut dor_levels: Vec<u8> = Vec::new();
             for c in o.cbs.iter().filter(|c| c.t >= t_from && c.t < t_to) {
-                let mine = (c.kind == StatusKind::DataAvailable && c.entity == *h) || (c.kind == StatusKind::DataOnReaders && c.entity == *hs);
-                if mine {
+                if c.kind == StatusKind::DataAvailable && c.entity == *h {
                     // a callback of the other kind is a delivery at the wrong place
-                    let same_kind = kind_name(c.kind) == status;
-                    got.push(if same_kind { c.level } else { 10 + c.level });
+                    got.push(if status == "DataAvailable" { c.level } else { 10 + c.level });
+                    got_kinds.push(kind_name(c.kind));
+                } else if c.kind == StatusKind::DataOnReaders && c.entity == *hs {
+                    dor_levels.push(if status == "DataOnReaders" { c.level } else { 10 + c.level });
                     got_kinds.push(kind_name(c.kind));
                 }
+            }
+            if status == "DataOnReaders" && k_same_sub >= 2 && (1..=k_same_sub).contains(&dor_levels.len()) && dor_levels.iter().all(|l| *l == dor_levels[0]) {
+                got.push(dor_levels[0]);
+            } else if status == "DataAvailable" && k_same_sub >= 2 {
+                // DATA_ON_READERS callbacks in this window belong to the subscriber, not to one
+                // reader: report them once (for the first reader of the subscriber) only
+                if readers.iter().find(|r| r.1 == *hs && match r.3 { 2 => wr.2, 3 => wr.3, _ => wr.4 }).map(|r| r.0) == Some(*h) {
+                    got.extend(dor_levels);
+                }
+            } else {
+                got.extend(dor_levels);
             }
             j.occurrence(
                 status,
@@ -520,6 +567,7 @@ fn evaluate(rep: &mut Report, p: &P, o: &Out, replay: &Json, poll_hash: u64, cas
         .set("a", vec![lm_json(&p.a_dp), lm_json(&p.a_pub), lm_json(&p.a_w)])
         .set("b", vec![lm_json(&p.b_dp), lm_json(&p.b_sub), lm_json(&p.b_r)])
         .set("r2", p.r2.as_ref().map(lm_json))
+        .set("r3", p.r3.as_ref().map(lm_json))
         .set("rbad", p.rbad.as_ref().map(lm_json))
         .set("f", vec![p.deadline, p.limit]);
     let mut h = vcore::fnv_str(&cfg.to_string());
